@@ -41,7 +41,7 @@ CLAIMS = {
    note="Not decided: fairness between ready arms (either outcome allowed). Trusts Go's select and closed-channel semantics."),
  "C04": dict(cat="other", sec="4 C04",
    technique="static lock-set / typestate / atomic-protocol analysis over go/ssa path summaries with interprocedural requires-lock summaries",
-   text="Decides the necessary conditions of the read/dirty algorithm on all paths of all functions of sync2/map.go: guarded-by (dirty, misses, read.Store under mu, through callers for unexported helpers), lock pairing, atomic-only access to entry.p, re-check under the lock (no use of a pre-Lock snapshot after Lock), promotion only after a fresh amended/dirty-hit test, the CAS protocol on entry.p (expunged only by CAS from nil under mu, plain stores only under mu into non-expungeable entries), unexpunge-reinserts, amended-on-new-key, promotion pairing, read-map immutability, Range's promote-then-iterate-unlocked shape, no callback under the lock, the entry helpers' result rows against what the path knows about the loaded word, re-load in every CAS retry iteration, and effect completeness of Store/Load/LoadOrStore/LoadAndDelete/Delete. In the thorough tier the same rules are run on GOROOT's sync/map.go as a negative control and must report nothing. Each violated rule corresponds to a data race or a lost/resurrected key under some schedule.",
+   text="Decides the necessary conditions of the read/dirty algorithm on all paths of all functions of sync2/map.go: guarded-by (dirty, misses, read.Store under mu, through callers for unexported helpers), lock pairing, atomic-only access to entry.p, re-check under the lock (no use of a pre-Lock snapshot after Lock), promotion only after a fresh amended/dirty-hit test, the CAS protocol on entry.p (expunged only by CAS from nil under mu, plain stores only under mu into non-expungeable entries), unexpunge-reinserts, amended-on-new-key, promotion pairing, read-map immutability, Range's promote-then-iterate-unlocked shape, no callback under the lock, the entry helpers' result rows against what the path knows about the loaded word, re-load in every CAS retry iteration (a retry only after a failed CAS, a CAS from a fixed old value only after that value was seen, a CAS from nil only to a non-nil word), the sequential meaning of the lookups (lookup-justified: an entry is used only where its lookup found it; 'absent' is answered and a new entry inserted only after misses in the latest snapshot and, when it is amended, in dirty; the function that creates dirty leaves it non-nil; Load writes no map; the dirty copy loop runs to exhaustion; Range iterates a snapshot found complete), and effect completeness of Store/Load/LoadOrStore/LoadAndDelete/Delete. In the thorough tier the same rules are run on GOROOT's sync/map.go as a negative control and must report nothing. Each violated rule corresponds to a data race or a lost/resurrected key under some schedule.",
    note="NOT decided: linearizability proper (that the local disciplines compose), Range completeness, memory-model reasoning beyond lock/atomic protection - a static argument in reach cannot bound schedules; these necessary conditions are what is claimed."),
  "C05": dict(cat="other", sec="4 C05",
    technique="static wrapper-protocol check (one atomic map operation per path, flag mapping, counting closure) + the C04 map protocol rules",
@@ -77,7 +77,7 @@ CLAIMS = {
    note="Not decided: eventual delivery of Pub/PubSlice, liveness, deadlock freedom (schedules)."),
  "C11": dict(cat="other", sec="4 C11",
    technique="static pairing rules over go/ssa paths: paired map writes, partner-from-hit-lookup deletes, eviction table, ownership/escape",
-   text="Every write to one index of the Bimap is shown to be paired on the same path with the matching write to the other (inserts mirrored; deletes paired with the partner's delete or overwrite, the partner coming from a lookup known to have hit); Add decides both collisions on every path and evicts stale entries first; only Add/RemoveForward/RemoveReverse/Clear write the maps and nothing returns them; Clone copies both maps freshly on every path; the two maps are created together, only when absent, and written only when present; the views are single lookups.",
+   text="Every write to one index of the Bimap is shown to be paired on the same path with the matching write to the other (inserts mirrored; deletes paired with the partner's delete or overwrite, the partner coming from a lookup known to have hit); Add decides both collisions on every path and evicts stale entries first; only Add/RemoveForward/RemoveReverse/Clear write the maps and nothing returns them; Clone copies both maps freshly on every path; the two maps are created together, only when absent, and written only when present; the views are single lookups; a removal is a no-op only where a lookup missed and deletes only after finding its own argument (comma-ok).",
    note="Not decided: the inductive step from paired writes to 'inverse bijections after every history' (an argument over runtime state; immediate for Go maps)."),
  "C12": dict(cat="other", sec="4 C12",
    technique="static index-relation checks (polynomial normal forms) and origin (freshness) analysis over go/ssa paths",
